@@ -272,6 +272,11 @@ def handleE2E : Handler := fun s =>
   match parseDesign s with
   | none => badInput "c09e2e: cannot parse design"
   | some d =>
+    -- a glyph listed in two groups of one side in one master is not a valid UFO3: outside the property
+    let invalid := d.masters.any fun m => ["public.kern1.", "public.kern2."].any fun pre =>
+      let gs := m.groups.filter fun g => g.1.startsWith pre
+      let all := gs.flatMap (·.2)
+      all.length != all.eraseDups.length
     match s.field? "result" with
     | some (.atom "ok" :: _) =>
       match parseKFont s with
@@ -318,11 +323,6 @@ def handleE2E : Handler := fun s =>
           (if kms.length < (d.masters.filter (!·.sparse)).length then ["kernless-master"] else []) ++
           (if kernedWhereDivergent srcs then ["hyp-holds"] else ["hyp-fails"])
         let nt := srcs.length ≥ 2 && hasKern && srcs.any fun s => !s.groups1.isEmpty || !s.groups2.isEmpty
-        -- a glyph listed in two groups of one side in one master is not a valid UFO3: outside the property
-        let invalid := d.masters.any fun m => ["public.kern1.", "public.kern2."].any fun pre =>
-          let gs := m.groups.filter fun g => g.1.startsWith pre
-          let all := gs.flatMap (·.2)
-          all.length != all.eraseDups.length
         if invalid then
           { corr := none, oracle := none, nontrivial := false, tags := tags ++ ["invalid-groups"],
             detail := s!"built; latn check: {badL.getD "ok"}" } else
@@ -336,6 +336,9 @@ def handleE2E : Handler := fun s =>
           else { corr := some (corrL && corrD), oracle := some true, nontrivial := nt, tags,
                  cls := if corrL && corrD then "" else "font-differs-from-model" }
     | some (.atom "err" :: msg) =>
+      if invalid then
+        { corr := none, oracle := none, tags := ["invalid-groups-rejected"], detail := (msg.head?.bind Sexp.asString?).getD "" }
+      else
       { corr := none, oracle := some false, cls := "valid-source-rejected",
         detail := (msg.head?.bind Sexp.asString?).getD "" }
     | _ => badInput "c09e2e: no result"
